@@ -477,6 +477,82 @@ func c13cEvalA(r *verifkit.Result, c c13Case, settings []c13cSetting, thorough b
 	}
 }
 
+// the distance options above the default, through the real option parser (section A-far, section B far-grid)
+func c13cFarSettings() []c13cSetting {
+	return []c13cSetting{
+		{2, 1, []string{"-d", "2"}},
+		{2, 0.6, []string{"--distance=2", "-r", "0.6"}}, // 0.6^2 > 1/3: links from abundance 1 to 3 pass the filter
+		{3, 1, []string{"--distance", "3"}},
+		{3, 0.7, []string{"-d", "3", "--ratio", "0.7"}}, // 0.7^3 > 1/3
+	}
+}
+
+// c13cEvalFar: one data set of the far pool (sequences 2..6 edits apart) through the command path at every
+// distance option >= 2: records parsed from JSON title lines in file order, in every other arrival order,
+// and with sample + count attributes. Oracle: c13CheckRecs (soundness of the links at distance >= 2: no
+// obiclean_mutation entry towards a sequence farther away than the option; coherence) + arrival order.
+func c13cEvalFar(r *verifkit.Result, c c13Case, settings []c13cSetting) {
+	n := len(c.Seqs)
+	var fs []c13Finding
+	ties := "no-ties"
+	if c13cHasTies(c) {
+		ties = "tied-abundances"
+	}
+	run := func(form string, args []string, arrival []int) []c13Rec {
+		r.Eval(1)
+		r.Count("A_command_path_executions", 1)
+		r.Count("Afar_command_path_executions", 1)
+		recs, _ := c13cRun(c13cMakeDB(c, form), args, arrival)
+		return recs
+	}
+	for _, st := range settings {
+		cc := c
+		cc.Dist, cc.Ratio = st.D, st.R
+		for i := range c.Seqs {
+			for j := i + 1; j < n; j++ {
+				if beyond, answered := c13BeyondBound(c.Seqs[i], c.Seqs[j], st.D); beyond && answered {
+					r.Count("Afar_pairs_beyond_the_option_answered_by_the_kernel", 1)
+				}
+			}
+		}
+		ref := run("json", st.Args, c13cIdentity(n))
+		for _, rec := range ref {
+			r.Count("Afar_links_judged", int64(len(rec.Mutation)))
+		}
+		fs = append(fs, c13cRekey(c13CheckRecs(cc, ref, "records parsed from JSON title lines, "+c13cSettingString(st)), "CLIOBIClean[json-title-lines]")...)
+		verifkit.Permutations(n, func(p []int) {
+			ident := true
+			for i, x := range p {
+				if x != i {
+					ident = false
+				}
+			}
+			if ident {
+				return
+			}
+			got := run("json", st.Args, p)
+			r.Count("A1_arrival_orders", 1)
+			if f := c13cDiffField(ref, got); f != "" {
+				r.Count("A1_arrival_orders_differing", 1)
+				fs = append(fs, c13Finding{"CLIOBIClean/batch-arrival-order/" + f + "-differs:" + c13cDistClass(st.D) + ":" + ties,
+					fmt.Sprintf("%s: batches (one record each, numbered in file order) arriving in order %v instead of file order change the annotations\nfile order:\n%sorder %v:\n%s",
+						c13cSettingString(st), p, c13RecsString(ref), p, c13RecsString(got))})
+			}
+		})
+		arecs := run("attr", st.Args, c13cIdentity(n))
+		fs = append(fs, c13cRekey(c13CheckRecs(cc, arecs, "records with sample and count attributes, "+c13cSettingString(st)), "CLIOBIClean[sample+count]")...)
+	}
+	r.Count("Afar_datasets", 1)
+	seen := map[string]bool{}
+	for _, f := range fs {
+		if seen[f.key] {
+			continue
+		}
+		seen[f.key] = true
+		r.Violate(f.key, fmt.Sprintf("seqs=%v samples=%v counts=%v: %s", c.Seqs, c.Samples, c.Counts, f.desc), c13cReplay{Section: "F", Case: c})
+	}
+}
+
 // ---------------------------------------------------------------------------------------------
 // the real binary
 // ---------------------------------------------------------------------------------------------
@@ -938,6 +1014,52 @@ func c13cItems(x *c13cBin, thorough bool) []c13cItem {
 			}})
 		}
 	}
+	// B1f: the far pool (sequences 2..6 edits apart) packed the same way, at the distance options 2 and 3:
+	// no link between sequences farther apart than the option (c13CheckRecs), coherent, same for 1 and 4 CPUs
+	farPacked := c13cPacked(c13FarPool(), 3)
+	farPacked.Family = "packed-far"
+	for _, form := range []string{"merged", "per-sample"} {
+		for si, st := range c13cFarSettings() {
+			if form == "merged" && si%2 == 1 && !thorough {
+				continue // quick: per-sample file at the four settings, merged file at -d 2 and -d 3 (ratio 1)
+			}
+			form, si, st := form, si, st
+			items = append(items, c13cItem{fmt.Sprintf("far-grid/%s/%d", form, si), func(report func(key, format string, a ...any)) {
+				c := withSetting(farPacked, st)
+				in := ""
+				if form == "merged" {
+					in = file("far-merged.fasta", func(p string) error { return c13cWriteMerged(p, farPacked, "json") })
+				} else {
+					in = file("far-per-sample.fasta", func(p string) error { _, err := c13cWritePerSample(p, farPacked); return err })
+				}
+				ref := ""
+				for wi, w := range [][]string{{"--force-one-cpu"}, {"--max-cpu", "4"}} {
+					args := append(append([]string{}, w...), st.Args...)
+					byId, _, err := x.run(in, args)
+					if err != nil {
+						report("obiclean(bin)/run-failed:"+c13cDistClass(st.D), "obiclean %v on the packed far-pool %s file: %v", args, form, err)
+						return
+					}
+					canon := c13cCanon(byId)
+					if wi == 0 {
+						ref = canon
+						nlinks := 0
+						for _, o := range byId {
+							nlinks += len(o.Rec.Mutation)
+						}
+						x.r.Count("B_far_links_judged", int64(nlinks))
+						judge(form, c, byId, fmt.Sprintf("obiclean %v, packed far-pool %s file (%d samples)", args, form, len(c.Samples)), report)
+						continue
+					}
+					x.r.Count("B_worker_count_comparisons", 1)
+					if canon != ref {
+						report("obiclean(bin)/annotations-differ-between-runs(worker-counts-1..4):"+c13cDistClass(st.D)+":tied-abundances",
+							"obiclean %v on the packed far-pool %s file differs from the --force-one-cpu run (SAMPLED observation of real goroutines): %s", args, form, c13cFirstDiffLine(ref, canon))
+					}
+				}
+			}})
+		}
+	}
 	// B2: re-cleaning an output file
 	for _, form := range []string{"merged", "per-sample"} {
 		form := form
@@ -1311,6 +1433,10 @@ func TestVerifC13CLI(t *testing.T) {
 			c13cEvalA(r, rp.Case, settings, true)
 			return
 		}
+		if rp.Section == "F" {
+			c13cEvalFar(r, rp.Case, c13cFarSettings())
+			return
+		}
 		x := newBin()
 		for _, it := range c13cItems(x, true) {
 			if it.name == rp.Item {
@@ -1350,6 +1476,35 @@ func TestVerifC13CLI(t *testing.T) {
 	// ---- section A ----
 	oldProcs := runtime.GOMAXPROCS(1)
 	defer runtime.GOMAXPROCS(oldProcs)
+	// ---- section A-far (first: small fixed cost): far-pool data sets at the distance options 2 and 3 ----
+	far := c13FarPool()
+	r.Bound("Afar_datasets", "every pair of far-pool sequences and every triple of its first 6 (thorough: every triple) x every abundance vector over {1,2,3} x "+fmt.Sprint(c13cFarSettings())+" x all arrival orders + sample/count attribute form")
+	kfar := 0
+	for size := 2; size <= 3; size++ {
+		nfar := len(far)
+		if size == 3 && !thorough {
+			nfar = 6
+		}
+		c13Subsets(nfar, size, func(idx []int) {
+			kfar++
+			if !r.Mine(kfar) || r.Expired() {
+				return
+			}
+			seqs := make([]string, size)
+			for j, i := range idx {
+				seqs[j] = far[i]
+			}
+			r.State("Afar|" + strings.Join(seqs, ","))
+			c13CountVectors(size, []int{1, 2, 3}, func(v []int) {
+				counts := make([][]int, size)
+				for i, xv := range v {
+					counts[i] = []int{xv}
+				}
+				c13cEvalFar(r, c13Case{Family: fmt.Sprintf("cli-far-%d", size), Seqs: seqs, Samples: []string{"A"}, Counts: counts, Dist: 2, Ratio: 1}, c13cFarSettings())
+			})
+		})
+	}
+
 	pool := c13SmallPool()
 	k := 0
 	for nsmp := 1; nsmp <= 2; nsmp++ {
@@ -1392,6 +1547,9 @@ func TestVerifC13CLI(t *testing.T) {
 	r.RequireNonVacuous("A1_arrival_orders")
 	r.RequireNonVacuous("A2_reclean_first_run_differs_from_default")
 	r.RequireNonVacuous("A3_head_records_removed")
+	r.RequireNonVacuous("Afar_links_judged")
+	r.RequireNonVacuous("Afar_pairs_beyond_the_option_answered_by_the_kernel")
+	r.RequireNonVacuous("B_far_links_judged")
 	r.RequireNonVacuous("B_binary_runs")
 	r.RequireNonVacuous("B_worker_count_comparisons")
 	if r.Shard == 0 {
